@@ -201,7 +201,6 @@ theorem reopen_inv {s : State} (hI : Inv s) (d : Nat) : Inv (reopen .repaired s 
   · -- handleLink
     intro h hd' hh hc k hk
     rw [hH] at hh
-    rw [hC, List.mem_append]
     rcases Nat.lt_or_ge h closedH.length with hlt | hge
     · rw [List.getElem?_append_left hlt] at hh
       obtain ⟨hd, h1, h2⟩ := hclosed h hd' hh
@@ -211,17 +210,12 @@ theorem reopen_inv {s : State} (hI : Inv s) (d : Nat) : Inv (reopen .repaired s 
         rw [hin] at h2
         simp only [Bool.false_eq_true, if_false] at h2
         subst h2
-        have hcol := hI.handleLink h hd' h1 hc k hk
-        obtain ⟨hd2, g1, _, _, _, g5, _⟩ := hI.sameObj k h hcol
-        rw [h1] at g1; cases g1
-        left
-        exact List.mem_filter.2 ⟨hcol, by rw [← g5]; simp [hin]⟩
+        exact hI.handleLink h hd' h1 hc k hk
     · obtain ⟨e, he, rfl⟩ := hnew h hge hd' hh
-      right
       have hel := ((hload e).1 (List.mem_of_getElem? he)).1
       have : k = e.1 := injective hI.oidInj hk hel
       subst this
-      exact loadCols_mem.2 ⟨hge, e, he, rfl⟩
+      exact ⟨rfl, rfl, rfl⟩
   · -- handleOidLt
     intro h hd' hh
     rw [hH] at hh
